@@ -13,38 +13,40 @@ def self_attr(n: ast.AST, attr: Optional[str] = None) -> bool:
 
 
 # ------------------------------------------------------------------------------------------------ a flag known to hold
-def implied(test: ast.AST, outcome: bool, is_flag: Callable[[ast.AST], bool]) -> bool:
-    """does `test` evaluating to `outcome` imply that the flag expression is true?  (and / or / not only; anything else: no)"""
+def implied(test: ast.AST, outcome: bool, is_flag: Callable[[ast.AST], bool], want: bool = True) -> bool:
+    """does `test` evaluating to `outcome` imply that the flag expression has the truth value `want`?  (and / or / not only; anything else: no)"""
     if is_flag(test):
-        return outcome
+        return outcome == want
     if isinstance(test, ast.UnaryOp) and isinstance(test.op, ast.Not):
-        return implied(test.operand, not outcome, is_flag)
+        return implied(test.operand, not outcome, is_flag, want)
     if isinstance(test, ast.BoolOp):
         conj = isinstance(test.op, ast.And)
-        # (a and b) true: both true; (a or b) false: both false -> one operand that implies the flag suffices.
+        # (a and b) true: both true; (a or b) false: both false -> one operand that implies it suffices.
         # (a and b) false / (a or b) true: only one of them is known to be so -> every operand has to imply it
         if conj == outcome:
-            return any(implied(v, outcome, is_flag) for v in test.values)
-        return all(implied(v, outcome, is_flag) for v in test.values)
+            return any(implied(v, outcome, is_flag, want) for v in test.values)
+        return all(implied(v, outcome, is_flag, want) for v in test.values)
     return False
 
 
-def holds_at(mod, fn: ast.AST, g: CFG, at: ast.AST, is_flag: Callable[[ast.AST], bool]) -> bool:
-    """is the flag known to be true wherever the expression `at` of fn is evaluated?
+def holds_at(mod, fn: ast.AST, g: CFG, at: ast.AST, is_flag: Optional[Callable[[ast.AST], bool]], want: bool = True,
+             implies: Optional[Callable[[ast.AST, bool], bool]] = None) -> bool:
+    """is the flag known to be true (to have the truth value `want`) wherever the expression `at` of fn is evaluated?
 
     (1) expression level: `at` sits in the arm of a conditional expression / in the right operand of and/or that is only evaluated under the flag;
     (2) statement level: every CFG path from the entry to the statement that evaluates `at` crosses an edge of an `if`/`while`/`assert` on which the flag is implied."""
+    imp = implies if implies is not None else (lambda t, o: implied(t, o, is_flag, want))  # type: ignore[arg-type]
     child = at
     for p in mod.parents(at):
         if isinstance(p, ast.IfExp):
-            if child is p.body and implied(p.test, True, is_flag):
+            if child is p.body and imp(p.test, True):
                 return True
-            if child is p.orelse and implied(p.test, False, is_flag):
+            if child is p.orelse and imp(p.test, False):
                 return True
         if isinstance(p, ast.BoolOp):
             i = next((k for k, v in enumerate(p.values) if v is child), 0)
             before = p.values[:i]
-            if before and any(implied(v, isinstance(p.op, ast.And), is_flag) for v in before):
+            if before and any(imp(v, isinstance(p.op, ast.And)) for v in before):
                 return True
         if isinstance(p, ast.comprehension) and any(child is c for c in p.ifs):
             pass
@@ -58,8 +60,8 @@ def holds_at(mod, fn: ast.AST, g: CFG, at: ast.AST, is_flag: Callable[[ast.AST],
     for nd in g.nodes:
         st = nd.ast
         if isinstance(st, (ast.If, ast.While)) and nd.kind == "test":
-            t_true = implied(st.test, True, is_flag)
-            t_false = implied(st.test, False, is_flag)
+            t_true = imp(st.test, True)
+            t_false = imp(st.test, False)
             for s in g.succ[nd.id]:
                 lab = g.edge_label.get((nd.id, s), "")
                 if lab == "exc":
@@ -68,7 +70,7 @@ def holds_at(mod, fn: ast.AST, g: CFG, at: ast.AST, is_flag: Callable[[ast.AST],
                     cut.add((nd.id, s))
                 if lab != "true" and t_false:
                     cut.add((nd.id, s))
-        elif isinstance(st, ast.Assert) and implied(st.test, True, is_flag):
+        elif isinstance(st, ast.Assert) and imp(st.test, True):
             asserted.add(nd.id)
     if target in asserted:
         return False
@@ -153,10 +155,95 @@ def enclosing_binding_loop(mod, fn: ast.AST, at: ast.AST, name: str):
 
 
 # ------------------------------------------------------------------------------------------------ value flow of locals (rules c, h, k)
-def bindings(fn: ast.AST, name: str) -> tuple[list[ast.expr], bool]:
-    """(values plainly assigned to the local `name` anywhere in fn, opaque?).
+_PARENTS: dict[int, tuple[ast.AST, dict[int, ast.AST]]] = {}
 
-    `opaque` is true when `name` is (also) bound in a way whose value is not an expression of fn: a parameter, a loop / with / except / import target, a component of an
+
+def fn_parents(fn: ast.AST) -> dict[int, ast.AST]:
+    """child -> parent links inside fn (the module's own links do not cover nodes of an equivalent view that were copied in)."""
+    hit = _PARENTS.get(id(fn))
+    if hit is not None and hit[0] is fn:
+        return hit[1]
+    par: dict[int, ast.AST] = {}
+    for p in ast.walk(fn):
+        for ch in ast.iter_child_nodes(p):
+            par[id(ch)] = p
+    _PARENTS[id(fn)] = (fn, par)
+    return par
+
+
+def scope_binder(fn: ast.AST, e: ast.Name):
+    """the comprehension generator / lambda inside fn in whose own scope the name `e` is bound (None: `e` is a local of fn itself)."""
+    par = fn_parents(fn)
+    child: ast.AST = e
+    p = par.get(id(e))
+    while p is not None and p is not fn:
+        if isinstance(p, (ast.ListComp, ast.SetComp, ast.GeneratorExp, ast.DictComp)):
+            for i, gen in enumerate(p.generators):
+                if any(isinstance(x, ast.Name) and x.id == e.id for x in ast.walk(gen.target)):
+                    # the iterable of the first generator is evaluated outside the comprehension's scope
+                    if not (i == 0 and child is gen and any(x is e for x in ast.walk(gen.iter))):
+                        return gen
+        if isinstance(p, ast.Lambda) and any(a.arg == e.id for a in p.args.posonlyargs + p.args.args + p.args.kwonlyargs):
+            return p
+        child, p = p, par.get(id(p))
+    return None
+
+
+def _arm_value(stmts: list[ast.stmt], name: str) -> Optional[ast.expr]:
+    """the value an arm of an if statement leaves in the local `name`: its one plain assignment to it (the arm binds the name in no other way), or the merged value of a nested
+    if statement that is the arm's only binder of it."""
+    binders = [s for s in stmts if any(isinstance(x, ast.Name) and x.id == name and isinstance(x.ctx, (ast.Store, ast.Del)) for x in ast.walk(s))]
+    if len(binders) != 1:
+        return None
+    b = binders[0]
+    if isinstance(b, ast.Assign) and len(b.targets) == 1 and isinstance(b.targets[0], ast.Name) and b.targets[0].id == name:
+        return b.value
+    if isinstance(b, ast.AnnAssign) and isinstance(b.target, ast.Name) and b.target.id == name and b.value is not None:
+        return b.value
+    if isinstance(b, ast.If):
+        return merged_if_value(b, name)
+    return None
+
+
+def merged_if_value(st: ast.If, name: str) -> Optional[ast.expr]:
+    """`if T: name = A` / `else: name = B` read as the value `A if T else B` (a synthetic conditional expression over the original sub-expressions): the statement form and the
+    expression form of one definition.  None when an arm does not leave exactly one value in `name`."""
+    a = _arm_value(st.body, name)
+    b = _arm_value(st.orelse, name) if st.orelse else None
+    if a is None or b is None:
+        return None
+    e = ast.IfExp(test=st.test, body=a, orelse=b)
+    ast.copy_location(e, st)
+    e._merged_from = st  # type: ignore[attr-defined]
+    return e
+
+
+def _comprehension_rows(fn: ast.AST, it: ast.expr, arity: int, _depth: int, _seen: set[str]) -> Optional[list[ast.Tuple]]:
+    """the element tuples of the comprehensions the iterable `it` can stand for (every definition has to be a comprehension over rows of this arity); None otherwise."""
+    rows: list[ast.Tuple] = []
+    todo = list(leaf_definitions(fn, it, _depth + 1, _seen))
+    while todo:
+        lf = todo.pop(0)
+        if isinstance(lf, ast.IfExp):  # either arm
+            todo = leaf_definitions(fn, lf.body, _depth + 1, _seen) + leaf_definitions(fn, lf.orelse, _depth + 1, _seen) + todo
+            continue
+        while isinstance(lf, ast.Call) and isinstance(lf.func, ast.Name) and lf.func.id in ("list", "tuple", "iter", "sorted", "reversed") and len(lf.args) == 1 and not lf.keywords:
+            lf = lf.args[0]  # a re-packing of the same rows
+        if not isinstance(lf, (ast.GeneratorExp, ast.ListComp, ast.SetComp)):
+            return None
+        el = lf.elt
+        if not (isinstance(el, ast.Tuple) and len(el.elts) == arity and not any(isinstance(x, ast.Starred) for x in el.elts)):
+            return None
+        rows.append(el)
+    return rows or None
+
+
+def bindings(fn: ast.AST, name: str, _depth: int = 0, _seen: Optional[set[str]] = None) -> tuple[list[ast.expr], bool]:
+    """(values the local `name` of fn can hold, opaque?).
+
+    Values: what is plainly assigned to it; `if T: name = A else: name = B` counts as the one value `A if T else B`; a component of the target of a loop over rows that a
+    comprehension of fn builds (`rows = ((a, f(b)) for ..)`, `for x, y in rows`) holds the corresponding component of the row expression.
+    `opaque` is true when `name` is (also) bound in a way whose value is not an expression of fn: a parameter, any other loop / with / except / import target, a component of an
     unpacking, an augmented assignment, a nested def.  A name that is opaque cannot be replaced by `its definitions`."""
     vals: list[ast.expr] = []
     args = getattr(fn, "args", None)
@@ -166,7 +253,21 @@ def bindings(fn: ast.AST, name: str) -> tuple[list[ast.expr], bool]:
             if a.arg == name:
                 opaque = True
     direct: set[int] = set()
+    consumed: set[int] = set()  # assignments that are arms of a merged if statement
+    par = fn_parents(fn)
     for n in own_nodes(fn):
+        if isinstance(n, ast.If) and not (isinstance(par.get(id(n)), ast.If) and any(n is x for x in par[id(n)].orelse) and len(par[id(n)].orelse) == 1):
+            mv = merged_if_value(n, name)
+            if mv is not None:
+                vals.append(mv)
+                for x in ast.walk(n):
+                    if isinstance(x, (ast.Assign, ast.AnnAssign)):
+                        consumed.add(id(x))
+                    if isinstance(x, ast.Name) and x.id == name and isinstance(x.ctx, ast.Store):
+                        direct.add(id(x))
+    for n in own_nodes(fn):
+        if id(n) in consumed:
+            continue
         if isinstance(n, ast.Assign):
             for t in n.targets:
                 if isinstance(t, ast.Name) and t.id == name:
@@ -182,6 +283,13 @@ def bindings(fn: ast.AST, name: str) -> tuple[list[ast.expr], bool]:
             direct.add(id(n.target))
             if n.value is not None:
                 vals.append(n.value)
+        elif isinstance(n, (ast.For, ast.AsyncFor)) and isinstance(n.target, ast.Tuple) and not n.orelse and _depth < 6:
+            idx = [i for i, t in enumerate(n.target.elts) if isinstance(t, ast.Name) and t.id == name]
+            if len(idx) == 1 and all(isinstance(t, ast.Name) for t in n.target.elts):
+                rows = _comprehension_rows(fn, n.iter, len(n.target.elts), _depth, (_seen or set()) | {name})
+                if rows is not None:
+                    vals += [r.elts[idx[0]] for r in rows]
+                    direct.add(id(n.target.elts[idx[0]]))
         elif isinstance(n, (ast.FunctionDef, ast.AsyncFunctionDef, ast.ClassDef)) and n.name == name:
             opaque = True
         elif isinstance(n, ast.alias) and (n.asname or n.name.split(".")[0]) == name:
@@ -189,17 +297,29 @@ def bindings(fn: ast.AST, name: str) -> tuple[list[ast.expr], bool]:
         elif isinstance(n, ast.ExceptHandler) and n.name == name:
             opaque = True
     for n in own_nodes(fn):
-        if isinstance(n, ast.Name) and n.id == name and isinstance(n.ctx, (ast.Store, ast.Del)) and id(n) not in direct:
+        if isinstance(n, ast.Name) and n.id == name and isinstance(n.ctx, (ast.Store, ast.Del)) and id(n) not in direct and scope_binder(fn, n) is None \
+                and not isinstance(par.get(id(n)), ast.comprehension) and not _in_comprehension_target(par, n, fn):
             opaque = True  # loop / with / unpacking / augmented target
     return vals, opaque
 
 
+def _in_comprehension_target(par: dict[int, ast.AST], n: ast.AST, fn: ast.AST) -> bool:
+    """n is (part of) the target of a comprehension generator: a variable of the comprehension's scope, not a binding of the local of fn."""
+    child, p = n, par.get(id(n))
+    while p is not None and p is not fn and not isinstance(p, ast.stmt):
+        if isinstance(p, ast.comprehension):
+            return any(child is x or any(child is y for y in ast.walk(x)) for x in [p.target])
+        child, p = p, par.get(id(p))
+    return False
+
+
 def leaf_definitions(fn: ast.AST, e: ast.expr, _depth: int = 0, _seen: Optional[set[str]] = None) -> list[ast.expr]:
-    """the expressions a use of `e` in fn can stand for: a local name that is only ever plainly assigned is replaced by the values assigned to it (every one of them: the
-    replacement is flow-insensitive, which asks more of the code than reaching definitions would, never less), transitively; anything else stands for itself."""
+    """the expressions a use of `e` in fn can stand for: a local name that is only ever bound to values that are expressions of fn (see `bindings`) is replaced by those values
+    (every one of them: the replacement is flow-insensitive, which asks more of the code than reaching definitions would, never less), transitively; a variable of a
+    comprehension / lambda inside fn, and anything else, stands for itself."""
     seen = _seen if _seen is not None else set()
-    if isinstance(e, ast.Name) and _depth < 6 and e.id not in seen:
-        vals, opaque = bindings(fn, e.id)
+    if isinstance(e, ast.Name) and _depth < 6 and e.id not in seen and scope_binder(fn, e) is None:
+        vals, opaque = bindings(fn, e.id, _depth, seen)
         if vals and not opaque:
             out: list[ast.expr] = []
             for v in vals:
@@ -373,3 +493,397 @@ class Callees:
                 return [None]
             out += self.of(rows[-1], value, _depth + 1)
         return out
+
+
+# ------------------------------------------------------------------------------------------------ what a log entry is made of (rules a, b, c, e, h, j, k, o)
+class Entry:
+    """An undo-log entry as the sequence of the expressions its components hold, however the sequence is spelt: a tuple display, a local holding one, a construction of a
+    NamedTuple class (fields by position or keyword), `<entry>._replace(field=..)`, or a call of a method / private function whose body is one `return` of such a form
+    (evaluated with the entry for its parameter: `self.op` is the component, a comparison of constants and a conditional expression on it are decided, a row of a constant
+    table is looked up)."""
+
+    def __init__(self, elts: list[ast.expr], fields: Optional[list[str]] = None, cls: Optional[ast.ClassDef] = None):
+        self.elts, self.fields, self.cls = elts, fields, cls
+
+    def text(self) -> list[str]:
+        from .core import norm
+
+        return [norm(e) for e in self.elts]
+
+
+def _const(v: object, like: ast.AST) -> ast.Constant:
+    c = ast.Constant(value=v)
+    return ast.copy_location(c, like)
+
+
+class Entries:
+    def __init__(self, mod, fn: ast.AST, class_of: Optional[Callable[[ast.AST], Optional[tuple[object, ast.ClassDef]]]] = None):
+        self.mod, self.fn = mod, fn
+        self._class_of = class_of
+        self._g: Optional[CFG] = None
+
+    def _reaching(self, use: ast.Name, vals: list[ast.expr]) -> list[ast.expr]:
+        """of the values assigned to a local, those of the assignments that can be the last one executed before the use (one local re-used for the entries of two loops
+        holds, in each loop, the entry built there); all of them when the assignments cannot be placed in the control-flow graph."""
+        if len(vals) < 2:
+            return vals
+        from .cfg import reaching_defs
+
+        try:
+            if self._g is None:
+                self._g = CFG(self.fn)
+            g = self._g
+            defs = reaching_defs(g, g.node_of(use, self.mod), use.id, skip_exc=False)
+            par = fn_parents(self.fn)
+            keep = []
+            for v in vals:
+                st: Optional[ast.AST] = getattr(v, "_merged_from", None) or v
+                while st is not None and not isinstance(st, ast.stmt):
+                    st = par.get(id(st))
+                if st is None or id(st) not in g.by_ast:
+                    return vals
+                if g.by_ast[id(st)] in defs:
+                    keep.append(v)
+            return keep or vals
+        except Exception:
+            return vals
+
+    # -- classes of rows
+    def row_class(self, e: ast.AST):
+        """(module, class, field names, defaults) when the expression `e` denotes a NamedTuple class."""
+        hit = None
+        if isinstance(e, ast.Name) and self.mod.has(e.id) and isinstance(self.mod.defs[e.id], ast.ClassDef):
+            hit = (self.mod, self.mod.defs[e.id])
+        elif self._class_of is not None:
+            hit = self._class_of(e)
+        if hit is None:
+            return None
+        m, c = hit
+        if not any((isinstance(b, ast.Name) and b.id == "NamedTuple") or (isinstance(b, ast.Attribute) and b.attr == "NamedTuple") for b in c.bases):
+            return None
+        fields, defaults = [], {}
+        for st in c.body:
+            if isinstance(st, ast.AnnAssign) and isinstance(st.target, ast.Name):
+                fields.append(st.target.id)
+                if st.value is not None:
+                    defaults[st.target.id] = st.value
+        return m, c, fields, defaults
+
+    def _construct(self, call: ast.Call, rc, env) -> Optional[Entry]:
+        m, c, fields, defaults = rc
+        if any(isinstance(a, ast.Starred) for a in call.args) or any(k.arg is None for k in call.keywords) or len(call.args) > len(fields):
+            return None
+        got: dict[str, ast.expr] = dict(defaults)
+        for f, a in zip(fields, call.args):
+            got[f] = a
+        for k in call.keywords:
+            if k.arg not in fields:
+                return None
+            got[k.arg] = k.value
+        if any(f not in got for f in fields):
+            return None
+        elts = []
+        for f in fields:
+            v = self.simplify(got[f], env)
+            if v is None:
+                return None
+            elts.append(v)
+        return Entry(elts, fields, c)
+
+    # -- evaluation
+    def resolve(self, e: ast.AST, env: Optional[dict] = None, _depth: int = 0) -> Optional[Entry]:
+        env = env or {}
+        if _depth > 8:
+            return None
+        if isinstance(e, ast.Name) and e.id in env:
+            v = env[e.id]
+            return v if isinstance(v, Entry) else self.resolve(v, {}, _depth + 1)
+        if isinstance(e, ast.Tuple):
+            if any(isinstance(x, ast.Starred) for x in e.elts):
+                return None
+            elts = [self.simplify(x, env) for x in e.elts]
+            return None if any(x is None for x in elts) else Entry(elts)  # type: ignore[arg-type]
+        if isinstance(e, ast.Name) and not env:
+            if scope_binder(self.fn, e) is not None:
+                return None
+            vals, opaque = bindings(self.fn, e.id)
+            if opaque or not vals:
+                return None
+            vals = self._reaching(e, vals)
+            rs = [self.resolve(v, {}, _depth + 1) for v in vals]
+            if any(r is None for r in rs) or len({tuple(r.text()) for r in rs}) != 1:  # type: ignore[union-attr]
+                return None
+            return rs[0]
+        if isinstance(e, ast.Call):
+            f = e.func
+            # type(x)(..) / x.__class__(..) of an entry: the entry's own class
+            if (isinstance(f, ast.Call) and isinstance(f.func, ast.Name) and f.func.id == "type" and len(f.args) == 1) or (isinstance(f, ast.Attribute) and f.attr == "__class__"):
+                base = self.resolve(f.args[0] if isinstance(f, ast.Call) else f.value, env, _depth + 1)
+                if base is not None and base.cls is not None:
+                    rc = self.row_class(ast.Name(id=base.cls.name, ctx=ast.Load()))
+                    return self._construct(e, rc, env) if rc else None
+                return None
+            rc = self.row_class(f)
+            if rc is not None:
+                return self._construct(e, rc, env)
+            if isinstance(f, ast.Attribute):
+                base = self.resolve(f.value, env, _depth + 1)
+                if base is not None:
+                    if f.attr == "_replace" and base.fields is not None and not e.args and all(k.arg in base.fields for k in e.keywords):
+                        elts = list(base.elts)
+                        for k in e.keywords:
+                            v = self.simplify(k.value, env)
+                            if v is None:
+                                return None
+                            elts[base.fields.index(k.arg)] = v
+                        return Entry(elts, base.fields, base.cls)
+                    if base.cls is not None:
+                        meth = next((s for s in base.cls.body if isinstance(s, ast.FunctionDef) and s.name == f.attr), None)
+                        if meth is not None and not meth.decorator_list:
+                            return self._through(meth, [base] + list(e.args), e.keywords, env, _depth)
+                    return None
+            if isinstance(f, ast.Name) and f.id.startswith("_") and self.mod.has(f.id) and isinstance(self.mod.defs[f.id], ast.FunctionDef) and not self.mod.defs[f.id].decorator_list:
+                return self._through(self.mod.defs[f.id], list(e.args), e.keywords, env, _depth)
+        return None
+
+    def _through(self, fn: ast.FunctionDef, args: list, keywords: list[ast.keyword], env: dict, _depth: int) -> Optional[Entry]:
+        """the entry a call of fn returns, when fn is one `return <entry form>`."""
+        body = [s for s in fn.body if not (isinstance(s, ast.Expr) and isinstance(s.value, ast.Constant) and isinstance(s.value.value, str))]
+        a = fn.args
+        if len(body) != 1 or not isinstance(body[0], ast.Return) or body[0].value is None or a.vararg or a.kwarg or a.kwonlyargs or keywords or len(args) != len(a.posonlyargs + a.args):
+            return None
+        inner: dict = {}
+        for prm, v in zip(a.posonlyargs + a.args, args):
+            if isinstance(v, Entry):
+                inner[prm.arg] = v
+            else:
+                r = self.resolve(v, env, _depth + 1)
+                sv = r if r is not None else self.simplify(v, env)
+                if sv is None:
+                    return None
+                inner[prm.arg] = sv
+        return self.resolve(body[0].value, inner, _depth + 1)
+
+    def _table(self, e: ast.AST) -> Optional[ast.Dict]:
+        """a dict display with constant keys: written out, or the one value a module-level name is bound to."""
+        if isinstance(e, ast.Name):
+            defs = [st.value for st in self.mod.tree.body if isinstance(st, (ast.Assign, ast.AnnAssign)) and st.value is not None
+                    and any(isinstance(t, ast.Name) and t.id == e.id for t in (st.targets if isinstance(st, ast.Assign) else [st.target]))]
+            rebound = any(isinstance(x, ast.Name) and x.id == e.id and isinstance(x.ctx, (ast.Store, ast.Del)) for x in ast.walk(self.mod.tree)) and len(defs) != 1
+            if len(defs) != 1 or rebound:
+                return None
+            e = defs[0]
+        if isinstance(e, ast.Dict) and all(isinstance(k, ast.Constant) for k in e.keys):
+            return e
+        return None
+
+    def simplify(self, v: ast.expr, env: dict) -> Optional[ast.expr]:
+        """`v` with the parameters of `env` replaced by what they hold and constant sub-expressions decided; None when a parameter is left in a place that cannot be replaced."""
+        if not env:
+            return v
+        if isinstance(v, ast.Constant):
+            return v
+        if isinstance(v, ast.Name):
+            if v.id in env:
+                x = env[v.id]
+                return None if isinstance(x, Entry) else x
+            return v if not isinstance(self.mod.defs.get(v.id), ast.FunctionDef) else v
+        if isinstance(v, ast.Attribute) and isinstance(v.value, ast.Name) and isinstance(env.get(v.value.id), Entry):
+            en = env[v.value.id]
+            return en.elts[en.fields.index(v.attr)] if en.fields and v.attr in en.fields else None
+        if isinstance(v, ast.Subscript) and isinstance(v.value, ast.Name) and isinstance(env.get(v.value.id), Entry) and isinstance(v.slice, ast.Constant) and isinstance(v.slice.value, int):
+            en = env[v.value.id]
+            return en.elts[v.slice.value] if -len(en.elts) <= v.slice.value < len(en.elts) else None
+        if isinstance(v, ast.IfExp):
+            t = self.simplify(v.test, env)
+            if isinstance(t, ast.Constant):
+                return self.simplify(v.body if t.value else v.orelse, env)
+            return None
+        if isinstance(v, ast.UnaryOp) and isinstance(v.op, ast.Not):
+            t = self.simplify(v.operand, env)
+            return _const(not t.value, v) if isinstance(t, ast.Constant) else None
+        if isinstance(v, ast.Compare) and len(v.ops) == 1:
+            l, r = self.simplify(v.left, env), self.simplify(v.comparators[0], env)
+            if isinstance(l, ast.Constant) and isinstance(r, ast.Constant):
+                op = v.ops[0]
+                if isinstance(op, (ast.Eq, ast.Is)):
+                    return _const(l.value == r.value, v)
+                if isinstance(op, (ast.NotEq, ast.IsNot)):
+                    return _const(l.value != r.value, v)
+            if isinstance(l, ast.Constant) and isinstance(v.ops[0], (ast.In, ast.NotIn)) and isinstance(r, (ast.Tuple, ast.List, ast.Set)) and all(isinstance(x, ast.Constant) for x in r.elts):
+                return _const((l.value in [x.value for x in r.elts]) == isinstance(v.ops[0], ast.In), v)
+            return None
+        if isinstance(v, (ast.Tuple, ast.List, ast.Set)):
+            return v if not any(isinstance(x, ast.Name) and x.id in env for x in ast.walk(v)) else None
+        key = tab = None
+        if isinstance(v, ast.Subscript):
+            tab, key = self._table(v.value), self.simplify(v.slice, env)
+        elif isinstance(v, ast.Call) and isinstance(v.func, ast.Attribute) and v.func.attr == "get" and len(v.args) == 1 and not v.keywords:
+            tab, key = self._table(v.func.value), self.simplify(v.args[0], env)
+        if tab is not None and isinstance(key, ast.Constant):
+            rows = [val for k, val in zip(tab.keys, tab.values) if k.value == key.value]
+            return self.simplify(rows[-1], {}) if rows else None
+        return None if any(isinstance(x, ast.Name) and x.id in env for x in ast.walk(v)) else v
+
+
+class LogSite:
+    """one update of the undo log (`self.<log>.append/remove(<entry>)`): the entry as written (`entry`, None when it is not a recognisable sequence of components) and the
+    alternatives it stands for when its components come out of a loop over rows that comprehensions of the function build (`alts`: one list of component expressions per
+    comprehension, the row's expressions in place of the loop variables; the entry itself when no such loop is involved)."""
+
+    def __init__(self, call: ast.Call, kind: str, entry: Optional[Entry], alts: list[list[ast.expr]]):
+        self.call, self.kind, self.entry, self.alts = call, kind, entry, alts
+
+    @property
+    def tag(self) -> Optional[str]:
+        if self.entry is None or not self.entry.elts:
+            return None
+        t = self.entry.elts[-1]
+        return t.value if isinstance(t, ast.Constant) and isinstance(t.value, str) else None
+
+
+def row_alternatives(fn: ast.AST, elts: list[ast.expr]) -> list[list[ast.expr]]:
+    par = fn_parents(fn)
+    for n in own_nodes(fn):
+        if not (isinstance(n, (ast.For, ast.AsyncFor)) and isinstance(n.target, ast.Tuple) and all(isinstance(t, ast.Name) for t in n.target.elts) and not n.orelse):
+            continue
+        names = [t.id for t in n.target.elts]  # type: ignore[attr-defined]
+        used = [e for e in elts if isinstance(e, ast.Name) and e.id in names and scope_binder(fn, e) is None and _inside(par, e, n, fn)]
+        if not used:
+            continue
+        rows = _comprehension_rows(fn, n.iter, len(names), 0, set())
+        if rows is None:
+            continue
+        out = []
+        for r in rows:
+            out.append([r.elts[names.index(e.id)] if any(e is u for u in used) else e for e in elts])
+        return out
+    return [list(elts)]
+
+
+def _inside(par: dict[int, ast.AST], e: ast.AST, loop: ast.AST, fn: ast.AST) -> bool:
+    p = par.get(id(e))
+    while p is not None and p is not fn:
+        if p is loop:
+            return True
+        p = par.get(id(p))
+    return False
+
+
+def log_sites(mod, fn: ast.AST, log: str, entries: Entries) -> list[LogSite]:
+    out = []
+    for c in own_nodes(fn):
+        if isinstance(c, ast.Call) and isinstance(c.func, ast.Attribute) and c.func.attr in ("append", "remove", "insert", "extend") and self_attr(c.func.value, log):
+            en = entries.resolve(c.args[0]) if len(c.args) == 1 and not c.keywords else None
+            out.append(LogSite(c, c.func.attr, en, row_alternatives(fn, en.elts) if en is not None else []))
+    out.sort(key=lambda s: (s.call.lineno, s.call.col_offset))
+    return out
+
+
+def binder_of(mod, fn: ast.AST, x: ast.Name):
+    """the for statement / comprehension generator whose target binds the name at the place where `x` is read (None: not a loop variable)."""
+    par = fn_parents(fn)
+    child: ast.AST = x
+    p = par.get(id(x))
+    while p is not None:
+        if isinstance(p, (ast.For, ast.AsyncFor)) and any(isinstance(t, ast.Name) and t.id == x.id for t in ast.walk(p.target)) and any(child is s for s in p.body):
+            return p
+        if isinstance(p, (ast.ListComp, ast.SetComp, ast.GeneratorExp, ast.DictComp)):
+            for gen in p.generators:
+                if any(isinstance(t, ast.Name) and t.id == x.id for t in ast.walk(gen.target)):
+                    return gen
+        if p is fn:
+            break
+        child, p = p, par.get(id(p))
+    return None
+
+
+def target_triple(loop) -> list[str]:
+    """the names a loop over triples()/quads() gives the subject, predicate and object of a row: ((s, p, o), contexts) of the store interface, (s, p, o[, c]) of a graph."""
+    from .core import norm
+
+    t = loop.target
+    if isinstance(t, ast.Tuple) and t.elts and isinstance(t.elts[0], ast.Tuple):
+        t = t.elts[0]
+    return [norm(e) for e in t.elts[:3]] if isinstance(t, ast.Tuple) else []
+
+
+def enumeration_calls(it: ast.AST) -> list[ast.Call]:
+    return [c for c in ast.walk(it) if isinstance(c, ast.Call) and isinstance(c.func, ast.Attribute) and c.func.attr in ("triples", "quads")]
+
+
+def denotes_triple(fn: ast.AST, e: Optional[ast.AST], comps: list[str], param: str) -> bool:
+    """every value `e` can stand for is the triple parameter itself or the tuple of the three names it was unpacked into."""
+    from .core import norm
+
+    if e is None:
+        return False
+    for lf in leaf_definitions(fn, e):  # type: ignore[arg-type]
+        if isinstance(lf, ast.Name) and lf.id == param:
+            continue
+        if isinstance(lf, ast.Tuple) and [norm(x) for x in lf.elts] == comps:
+            continue
+        return False
+    return True
+
+
+# ------------------------------------------------------------------------------------------------ presence tests (rules a, e, j)
+def presence_polarity(fn: ast.AST, e: ast.AST, _depth: int = 0) -> Optional[tuple[bool, list[ast.Call]]]:
+    """(p, calls) when the truth of the expression `e` tells whether an enumeration (`<x>.triples(..)`, the calls) reports anything: p is True when `e` true means `something is
+    reported`, False when it means `nothing is`.  Forms: list/tuple/set/sorted/any/bool/len of the enumeration, `len(..) > 0`, `len(..) == 0`, `next(.., None) is [not] None`,
+    a local that only ever holds such a value.  None: the expression is not (known to be) such a test."""
+    if isinstance(e, ast.Name) and _depth < 3 and scope_binder(fn, e) is None:
+        vals, opaque = bindings(fn, e.id)
+        if opaque or len(vals) != 1:
+            return None
+        return presence_polarity(fn, vals[0], _depth + 1)
+    if isinstance(e, ast.Call) and isinstance(e.func, ast.Name) and e.func.id in ("list", "tuple", "set", "sorted", "any", "bool", "len") and len(e.args) == 1 and not e.keywords:
+        calls = [c for c in enumeration_calls(e.args[0]) if c.func.attr == "triples"]  # type: ignore[attr-defined]
+        return (True, calls) if calls else None
+    if isinstance(e, ast.Compare) and len(e.ops) == 1:
+        l, op, r = e.left, e.ops[0], e.comparators[0]
+        if isinstance(l, ast.Call) and isinstance(l.func, ast.Name) and l.func.id == "len" and isinstance(r, ast.Constant) and r.value in (0, 1):
+            inner = presence_polarity(fn, l, _depth)
+            if inner is not None:
+                if (isinstance(op, (ast.Gt, ast.NotEq)) and r.value == 0) or (isinstance(op, ast.GtE) and r.value == 1):
+                    return True, inner[1]
+                if (isinstance(op, ast.Eq) and r.value == 0) or (isinstance(op, ast.Lt) and r.value == 1):
+                    return False, inner[1]
+        if isinstance(l, ast.Call) and isinstance(l.func, ast.Name) and l.func.id == "next" and len(l.args) == 2 and isinstance(l.args[1], ast.Constant) and l.args[1].value is None \
+                and isinstance(r, ast.Constant) and r.value is None and isinstance(op, (ast.Is, ast.IsNot)):
+            calls = [c for c in enumeration_calls(l.args[0]) if c.func.attr == "triples"]  # type: ignore[attr-defined]
+            if calls:
+                return isinstance(op, ast.IsNot), calls
+    return None
+
+
+def absence_implied(fn: ast.AST, test: ast.AST, outcome: bool, accept: Callable[[list[ast.Call]], bool]) -> bool:
+    """does `test` evaluating to `outcome` imply that an enumeration `accept` approves of reported nothing?"""
+    pp = presence_polarity(fn, test)
+    if pp is not None:
+        return accept(pp[1]) and outcome != pp[0]
+    if isinstance(test, ast.UnaryOp) and isinstance(test.op, ast.Not):
+        return absence_implied(fn, test.operand, not outcome, accept)
+    if isinstance(test, ast.BoolOp):
+        if isinstance(test.op, ast.And) == outcome:
+            return any(absence_implied(fn, v, outcome, accept) for v in test.values)
+        return all(absence_implied(fn, v, outcome, accept) for v in test.values)
+    return False
+
+
+def presence_tests(fn: ast.AST) -> list[tuple[ast.AST, ast.AST, bool, list[ast.Call]]]:
+    """(if statement / conditional expression / while, atom, polarity, enumeration calls) for every presence test that a test of fn contains."""
+    out = []
+    for n in own_nodes(fn):
+        if isinstance(n, (ast.If, ast.IfExp, ast.While)):
+            stack = [n.test]
+            while stack:
+                t = stack.pop()
+                pp = presence_polarity(fn, t)
+                if pp is not None:
+                    out.append((n, t, pp[0], pp[1]))
+                elif isinstance(t, ast.BoolOp):
+                    stack += t.values
+                elif isinstance(t, ast.UnaryOp) and isinstance(t.op, ast.Not):
+                    stack.append(t.operand)
+    return out
